@@ -65,6 +65,10 @@ type Env struct {
 	TQ     *taskqueue.WorkerTaskQueue
 	Ex     *executor.Executor
 	Store  *kit.Store
+	// AltStore, when set, is the store of the persistence option "alt"; the
+	// outgoing-request hook selects it for every request that carries a
+	// dedup-by-key extension (the documented use of that extension)
+	AltStore *kit.Store
 	Sent   []Out
 	// FailSends: building a message reports a network Error to its subscribers
 	// (send failure) instead of Sent
@@ -110,9 +114,16 @@ func (m *slowManager) ReleaseRequestTask(p peer.ID, task *peertask.Task, err err
 	m.RequestManager.ReleaseRequestTask(p, task, err)
 }
 
-type persist struct{}
+// persist: the requestor's persistence options: one alternate store "alt"
+// when the harness set Env.AltStore
+type persist struct{ e *Env }
 
-func (persist) GetLinkSystem(string) (ipld.LinkSystem, bool) { return ipld.LinkSystem{}, false }
+func (p persist) GetLinkSystem(name string) (ipld.LinkSystem, bool) {
+	if p.e != nil && p.e.AltStore != nil && name == "alt" {
+		return p.e.AltStore.LinkSystem(), true
+	}
+	return ipld.LinkSystem{}, false
+}
 
 func NewEnv(dag *kit.DAG, has []bool, workers int, maxLinksGlobal uint64) *Env {
 	ctx, cancel := context.WithCancel(context.Background())
@@ -125,7 +136,7 @@ func NewEnv(dag *kit.DAG, has []bool, workers int, maxLinksGlobal uint64) *Env {
 	nel := listeners.NewNetworkErrorListeners()
 	nel.Register(func(p peer.ID, r graphsync.RequestData, err error) { e.NetErrs++ })
 	e.Chooser = kit.Chooser
-	e.RM = requestmanager.New(ctx, persist{}, e.Store.LinkSystem(), e, e, nel, listeners.NewRequestProcessingListeners(), e.TQ, e, maxLinksGlobal, func(obj any, stack string) { e.Panics = append(e.Panics, obj) })
+	e.RM = requestmanager.New(ctx, persist{e}, e.Store.LinkSystem(), e, e, nel, listeners.NewRequestProcessingListeners(), e.TQ, e, maxLinksGlobal, func(obj any, stack string) { e.Panics = append(e.Panics, obj) })
 	e.RM.SetDelegate(e)
 	e.Ex = executor.NewExecutor(&slowManager{RequestManager: e.RM, e: e}, e)
 	if workers > 0 {
@@ -160,7 +171,13 @@ func (e *Env) AllocateAndBuildMessage(p peer.ID, size uint64, fn func(*messagequ
 // --- hooks
 
 func (e *Env) ProcessRequestHooks(p peer.ID, request graphsync.RequestData) hooks.RequestResult {
-	return hooks.RequestResult{CustomChooser: e.Chooser, MaxLinks: e.MaxLinksPerReq}
+	res := hooks.RequestResult{CustomChooser: e.Chooser, MaxLinks: e.MaxLinksPerReq}
+	if e.AltStore != nil {
+		if _, has := request.Extension(graphsync.ExtensionDeDupByKey); has {
+			res.PersistenceOption = "alt"
+		}
+	}
+	return res
 }
 
 func (e *Env) ProcessResponseHooks(p peer.ID, response graphsync.ResponseData) hooks.UpdateResult {
